@@ -754,6 +754,8 @@ func c15Queries(target string) [][2]string {
 		{"mark-arg", "$.input.name.Equal($." + target + "?.name?)"},
 		{"after-parse", "$.input.name.ParseJSON().token.Equal($." + target + ".name)"},
 		{"after-parse-group", "{$.input.ok,$.input.name.ParseYAML().a.b.Equal($." + target + ".name)}"},
+		{"at-root", "@." + target + ".name"}, // a top-level `@` path starts at the root like `$`
+		{"at-root-group", "{OR,@." + target + ".ok,$.input.ok}"},
 	}
 }
 
@@ -775,6 +777,8 @@ func (c *Ctx) c15Check(root *CTy, txt string, all []string, cp, target, cls stri
 		}
 	case !positions && c15Calls%3 == 0:
 		qs = [][2]string{qs[0], qs[4]} // the root field written with its `?` mark
+	case !positions && c15Calls%3 == 1:
+		qs = [][2]string{qs[0], qs[8]} // the path written from `@` at the top level
 	case !positions:
 		qs = qs[:1]
 	}
@@ -783,7 +787,7 @@ func (c *Ctx) c15Check(root *CTy, txt string, all []string, cp, target, cls stri
 		expect := "REJ"
 		if expectOK {
 			switch pos {
-			case "", "mark":
+			case "", "mark", "at-root":
 				expect = "ACC String Single"
 			case "filter":
 				expect = "ACC Object Array"
